@@ -1,6 +1,7 @@
 """C02 -- the collector never reclaims or corrupts reachable data: result independent of the
 collection schedule and of the initial heap size."""
 import copy
+import json
 import os
 import threading
 
@@ -38,47 +39,110 @@ _block = threading.Lock()
 CORPUS = None
 
 
+LIB_SUITES = ["(srfi 1 test)", "(srfi 69 test)", "(srfi 95 test)", "(srfi 151 test)", "(srfi 38 test)", "(srfi 133 test)", "(srfi 130 test)", "(srfi 2 test)",
+              "(srfi 16 test)", "(srfi 26 test)", "(srfi 14 test)", "(srfi 113 test)", "(srfi 117 test)", "(srfi 127 test)", "(srfi 128 test)", "(srfi 41 test)",
+              "(chibi json-test)", "(chibi base64-test)", "(chibi string-test)", "(chibi iset-test)", "(chibi loop-test)", "(chibi match-test)", "(chibi parse-test)",
+              "(chibi regexp-test)", "(chibi uri-test)", "(chibi generic-test)", "(chibi bytevector-test)", "(chibi sxml-test)", "(chibi csv-test)",
+              "(chibi quoted-printable-test)", "(chibi mime-test)", "(chibi text-test)", "(chibi diff-test)", "(chibi edit-distance-test)", "(chibi optional-test)"]
+BIG_FILES = ["r7rs-tests.scm", "division-tests.scm", "syntax-tests.scm", "unicode-tests.scm"]
+
+
 def corpus():
+    """(name, source, heavy?) -- heavy entries are whole suites (seconds each): sparse schedules only"""
     global CORPUS
     if CORPUS is None:
         CORPUS = []
         d = os.path.join(REPO, "tests", "basic")
         for f in sorted(os.listdir(d)):
             if f.endswith(".scm"):
-                CORPUS.append(("basic/" + f, open(os.path.join(d, f)).read()))
+                CORPUS.append(("basic/" + f, open(os.path.join(d, f)).read(), False))
+        for f in BIG_FILES:
+            CORPUS.append(("tests/" + f, open(os.path.join(REPO, "tests", f)).read(), True))
+        for lib in LIB_SUITES:
+            CORPUS.append(("suite " + lib, "(import %s) (run-tests)" % lib, True))
     return CORPUS
+
+
+EMBED_OPS = ["cons", "list2", "list3", "string", "intern", "fixnum", "flonum", "bignum", "vector", "vset", "push", "apply", "eval", "read", "write", "keep", "release", "churn"]
+
+
+def gen_embed(rng):
+    script = []
+    for _ in range(rng.range(6, 40)):
+        op = rng.choice(EMBED_OPS)
+        text = ""
+        if op == "string":
+            text = rng.choice(["hello", "", "a\u03bbb", "x" * 200])
+        elif op == "intern":
+            text = "sym%d" % rng.below(50)
+        elif op == "apply":
+            text = rng.choice(["(lambda (a b) (list b a (string-append \"x\" \"y\")))", "(lambda (a b) (vector a b (* 1.5 2)))", "cons", "(lambda (a b) (let loop ((i 0) (acc (list a))) (if (= i 30) acc (loop (+ i 1) (cons b acc)))))"])
+        elif op == "eval":
+            text = rng.choice(["(list 1 2 (vector 3 4))", "(string-append \"ab\" \"cd\")", "(let loop ((i 0) (acc '())) (if (= i 50) acc (loop (+ i 1) (cons i acc))))", "(expt 3 100)"])
+        elif op == "read":
+            text = rng.choice(["(a (b c) #(1 2) \"s\" 1.5)", "12345678901234567890", "#u8(1 2 3)"])
+        script.append([op, rng.below(8), rng.below(1 << 20) if op in ("fixnum", "flonum", "bignum", "vector", "churn") else rng.below(8), rng.below(8), text])
+    return script
 
 
 def generate(rng, tier, index, seed):
     r = rng.below(100)
-    if r < 8:
-        name, src = rng.choice(corpus())
+    heavy = False
+    steps = None
+    if r < 10:
+        light = [c for c in corpus() if not c[2]]
+        name, src, heavy = rng.choice(light)
         fam = "corpus"
+    elif r < (14 if tier == "quick" else 30):
+        big = [c for c in corpus() if c[2]]
+        name, src, heavy = rng.choice(big)
+        fam = "corpus-suite"
+    elif r < (24 if tier == "quick" else 40):
+        name, fam = "embedder-ops", "embedder-ops"
+        steps = [{"op": "embed", "script": gen_embed(rng.fork("embed"))}]
     else:
         name, src, _ = progs.gen_program(rng.fork("prog"))
         fam = name
-    mode = rng.weighted([("points", 4), ("window", 3), ("every", 3), ("bernoulli", 2), ("aftergrow", 1)])
-    spec = {"mode": mode}
-    if mode == "points":
-        spec["fracs"] = [rng.below(1 << 20) for _ in range(rng.range(1, 12))]
-    elif mode == "window":
-        spec["a_frac"] = rng.below(1 << 20)
-        spec["w"] = rng.choice([1, 2, 5, 20, 100, 400])
-    elif mode == "every":
-        spec["n"] = rng.choice([1, 2, 3, 7, 31, 100, 1000])
-        spec["off_frac"] = rng.below(1 << 20)
-        spec["max_gcs"] = 600
-    elif mode == "bernoulli":
-        spec["p1024"] = rng.choice([1, 4, 16, 64])
-        spec["seed"] = rng.below(1 << 30)
-    variant = "asan" if rng.chance(1, 6) else "sim"
+    if steps is None:
+        steps = [{"op": "eval", "src": src}]
+    if tier == "thorough" and not heavy and rng.chance(1, 3):
+        # sweep: windows that together put a collection before EVERY allocation of the program (window j of width w)
+        spec = {"mode": "window-sweep", "j": rng.below(4096), "w": rng.choice([25, 50, 100])}
+    elif heavy:
+        # a whole suite runs millions of allocations: sparse schedules only
+        mode = rng.weighted([("points", 3), ("window", 3), ("bernoulli", 2), ("aftergrow", 1)])
+        spec = {"mode": mode}
+        if mode == "points":
+            spec["fracs"] = [rng.below(1 << 20) for _ in range(rng.range(1, 40))]
+        elif mode == "window":
+            spec["a_frac"] = rng.below(1 << 20)
+            spec["w"] = rng.choice([20, 100, 300])
+        elif mode == "bernoulli":
+            spec["p1024"] = 1
+            spec["seed"] = rng.below(1 << 30)
+    else:
+        mode = rng.weighted([("points", 4), ("window", 3), ("every", 3), ("bernoulli", 2), ("aftergrow", 1)])
+        spec = {"mode": mode}
+        if mode == "points":
+            spec["fracs"] = [rng.below(1 << 20) for _ in range(rng.range(1, 12))]
+        elif mode == "window":
+            spec["a_frac"] = rng.below(1 << 20)
+            spec["w"] = rng.choice([1, 2, 5, 20, 100, 400])
+        elif mode == "every":
+            spec["n"] = rng.choice([1, 2, 3, 7, 31, 100, 1000])
+            spec["off_frac"] = rng.below(1 << 20)
+            spec["max_gcs"] = 600
+        elif mode == "bernoulli":
+            spec["p1024"] = rng.choice([1, 4, 16, 64])
+            spec["seed"] = rng.below(1 << 30)
+    variant = "asan" if (rng.chance(1, 6) and not heavy) else "sim"
     case = {
         "prop": ID, "index": index, "seed": seed, "config": variant,
         "meta": {"family": fam, "program": name},
-        "steps": [{"op": "eval", "src": src}],
+        "steps": steps,
         "gc_rel": spec,
-        "sched": {"default_q": rng.choice([500, 500, 50, 7]), "tick_budget": 5000000},
-        "heapcheck_every": rng.choice([0, 0, 1, 5]),
+        "sched": {"default_q": rng.choice([500, 500, 50, 7]), "tick_budget": 50000000},
+        "heapcheck_every": rng.choice([0, 0, 1, 5]) if not heavy else 0,
     }
     return case
 
@@ -98,6 +162,11 @@ def resolve(case, nalloc):
     gc = {"mode": m}
     if m == "points":
         gc["points"] = sorted(set((f * n) >> 20 for f in spec["fracs"]))
+    elif m == "window-sweep":
+        gc["mode"] = "window"
+        nwin = max(1, (n + spec["w"] - 1) // spec["w"])
+        gc["a"] = (spec["j"] % nwin) * spec["w"]
+        gc["w"] = spec["w"]
     elif m == "window":
         gc["a"] = (spec["a_frac"] * n) >> 20
         gc["w"] = spec["w"]
